@@ -118,6 +118,10 @@ fn retarget_thread(o: &Op) -> Op {
     let mut o = o.clone();
     match &mut o {
         Op::Create { t, .. } | Op::Migrate { t, .. } | Op::FreshThread { t } | Op::Pollute { t, .. } | Op::Dist { t, .. } | Op::Jacc { t, .. } | Op::WMatch { t, .. } | Op::JCheck { t, .. } | Op::Burst { t, .. } | Op::JBurst { t, .. } => *t = 0,
+        Op::Preempt { t, t2, .. } => {
+            *t = 0;
+            *t2 = 0;
+        }
         // registry ids are per thread: leave registry ops where they are
         _ => {}
     }
@@ -335,6 +339,25 @@ fn simplifications(op: &Op) -> Vec<Op> {
             }
             for x in shrink_string(q) {
                 out.push(Op::JCheck { t: *t, r: r.clone(), q: x, fin: *fin });
+            }
+        }
+        Op::Preempt { t, t2, jac, r, q, fin, r2, q2, fin2, at } => {
+            let mk = |r: &String, q: &String, r2: &String, q2: &String, at: usize| Op::Preempt { t: *t, t2: *t2, jac: *jac, r: r.clone(), q: q.clone(), fin: *fin, r2: r2.clone(), q2: q2.clone(), fin2: *fin2, at };
+            if *at > 1 {
+                out.push(mk(r, q, r2, q2, 1));
+                out.push(mk(r, q, r2, q2, *at - 1));
+            }
+            for x in shrink_string(r) {
+                out.push(mk(&x, q, r2, q2, *at));
+            }
+            for x in shrink_string(q) {
+                out.push(mk(r, &x, r2, q2, *at));
+            }
+            for x in shrink_string(r2) {
+                out.push(mk(r, q, &x, q2, *at));
+            }
+            for x in shrink_string(q2) {
+                out.push(mk(r, q, r2, &x, *at));
             }
         }
         Op::WMatch { t, r, q, fin } => {
